@@ -43,4 +43,25 @@ of one credential and different across credentials, i.e. linkable -/
 theorem unrandomised_is_linkable (A A' : G) (h : A ≠ A') : (1 : F) • A ≠ (1 : F) • A' := by
   simpa using h
 
+/-- why the proof's coins must be independent of its secrets (tie: the `c12:pok-coins-related` oracle on
+coins recovered from two answers to one commitment): if the BBS randomiser `r` is reused as the Schnorr
+nonce of its own inverse (`r_inv = -1/r`, response `s = r + c·r_inv`), the transmitted response and the
+challenge put `r` among the roots of a public quadratic — anyone can solve it and unblind
+`A = (1/r)•a_bar`, a value that is the same in every presentation of the credential. -/
+theorem randomiser_as_nonce_is_solvable (r c : F) (hr : r ≠ 0) :
+    let s := r + c * (-(1 / r))
+    r * r - s * r - c = 0 := by
+  intro s
+  simp only [s]
+  field_simp
+  ring
+
+/-- … and the unblinded element links: two presentations of one credential with randomisers `r`, `r'`
+give `(1/r)•(r•A) = (1/r')•(r'•A)` -/
+theorem unblinded_elements_coincide (A : G) (r r' : F) (hr : r ≠ 0) (hr' : r' ≠ 0) :
+    (1 / r) • (r • A) = (1 / r') • (r' • A) := by
+  rw [smul_smul, smul_smul, one_div_mul_cancel hr, one_div_mul_cancel hr']
+
+example : let r : ℚ := 2; let c : ℚ := 6; r * r - (r + c * (-(1 / r))) * r - c = 0 := by norm_num
+
 end AC.C12
